@@ -33,7 +33,7 @@ def meta(prop, rule, budget, min_counts=None, assumptions=(), exhaustive=None, s
 
 
 meta("C01",
-     rule="documents drawn from the model grammar (G1, <=40 lines, GFA1 and GFA2, canonical and free spelling) x vlevel 0-3 x version explicit/auto x entry point (string, string+newline, list, file LF, file CRLF); a case is non-trivial when the document has >=1 reference-bearing record and >=3 distinct tag datatypes; distinct = distinct (document, configuration) hashes 12% rGFA documents (dialect='rgfa'); entry points also Gfa().read_file (with and without progress logging), lists of Line objects, add_line/append one by one.",
+     rule="documents drawn from the model grammar (G1, <=40 lines, GFA1 and GFA2, canonical and free spelling) x vlevel 0-3 x version explicit/auto x entry point (string, string+newline, list, file LF, file CRLF); a case is non-trivial when the document has >=1 reference-bearing record and >=3 distinct tag datatypes; distinct = distinct (document, configuration) hashes 12% rGFA documents (dialect='rgfa'); entry points also Gfa().read_file (with and without progress logging), lists of Line objects, add_line/append one by one. Custom record types spelled with the letters of the predefined ones.",
      budget={"quick": 22, "thorough": 300},
      min_counts={"quick": {"rgfa_documents": 500, "roundtrips": 2000, "rt:S": 1, "rt:L": 1, "rt:C": 1, "rt:P": 1, "rt:E": 1,
                            "rt:F": 1, "rt:G": 1, "rt:O": 1, "rt:U": 1, "rt:H": 1, "rt:#": 1,
@@ -51,14 +51,14 @@ meta("C05",
      budget={"quick": 30, "thorough": 400},
      min_counts={"quick": {"text_comparisons": 2000, "fresh_parse_comparisons": 1000, "cascading_removals": 50, "op:rename": 50}})
 meta("C08",
-     rule="G3 histories in which ~55% of the steps are calls the text model / grammar marks as failing (duplicate or clashing identifiers for every pair of record types, renames to identifiers in use, version conflicts, malformed lines, conflicting header values, edits of reference fields of connected lines, rm of unknown ids) interleaved with successful steps; full public observation compared before/after each raising call; non-trivial = history with >=1 raising call on a non-empty Gfa Probe steps: calls for which the text model has no verdict (identifiers mentioned in roles their carriers cannot play, lines taking the place of placeholders) are executed and, when they raise, must leave the observation unchanged; unknown-version scenarios include TS conflicts on VN headers. Level-0 unknown-version scenarios; header.add() call sequences with conflicting datatypes/values; group lines which define a tag of the group differently; the observation includes n_input_header_lines and the header values as returned by the API.",
+     rule="G3 histories in which ~55% of the steps are calls the text model / grammar marks as failing (duplicate or clashing identifiers for every pair of record types, renames to identifiers in use, version conflicts, malformed lines, conflicting header values, edits of reference fields of connected lines, rm of unknown ids) interleaved with successful steps; full public observation compared before/after each raising call; non-trivial = history with >=1 raising call on a non-empty Gfa Probe steps: calls for which the text model has no verdict (identifiers mentioned in roles their carriers cannot play, lines taking the place of placeholders) are executed and, when they raise, must leave the observation unchanged; unknown-version scenarios include TS conflicts on VN headers. Level-0 unknown-version scenarios; header.add() call sequences with conflicting datatypes/values; group lines which define a tag of the group differently; the observation includes n_input_header_lines and the header values as returned by the API. Positional fields re-assigned on hand-built lines before add_line; header line objects of a lower level; the header VN given through attribute/set/add on a Gfa of unknown version holding lines kept aside.",
      budget={"quick": 25, "thorough": 400},
-     min_counts={"quick": {"header_add_calls": 300, "header_line_objects_offered": 60, "foreign_line_objects_offered": 60, "probe_calls_failed": 400, "failing_calls": 1500}},
+     min_counts={"quick": {"header_add_calls": 300, "header_line_objects_offered": 40, "header_adds_on_unknown_version": 25, "foreign_line_objects_offered": 60, "probe_calls_failed": 400, "failing_calls": 1500}},
      set_samples=["failure_classes"])
 meta("C09",
-     rule="G3 histories with ~45% identifier clashes (additions and renames of every identified record type to identifiers in use by the same or another type) and legal renames; unique_names walker after every outermost mutation; model comparison after renames; non-trivial = history with a cross-type clash or a rename After every successful step a lookup oracle compares names/line()/segment() with the model (each identifier listed once and found as the real line that writes the model's record; freed identifiers not found), placeholders must exist exactly for mentioned-undefined identifiers, and line objects obtained earlier which claim to be connected must be the registered ones; L/C identifier tags are set, renamed and deleted; renames onto placeholders and to '*'. Probe calls (refused after they began to create references) with the placeholder oracle after every refused call.",
+     rule="G3 histories with ~45% identifier clashes (additions and renames of every identified record type to identifiers in use by the same or another type) and legal renames; unique_names walker after every outermost mutation; model comparison after renames; non-trivial = history with a cross-type clash or a rename After every successful step a lookup oracle compares names/line()/segment() with the model (each identifier listed once and found as the real line that writes the model's record; freed identifiers not found), placeholders must exist exactly for mentioned-undefined identifiers, and line objects obtained earlier which claim to be connected must be the registered ones; L/C identifier tags are set, renamed and deleted; renames onto placeholders and to '*'. Probe calls (refused after they began to create references) with the placeholder oracle after every refused call. Registry coherence (every identifier a line carries is in names and is looked up to that line) at the end of every history and after a conversion of the Gfa.",
      budget={"quick": 25, "thorough": 400},
-     min_counts={"quick": {"invariant_evaluations": 1000, "failing_calls": 300, "probe_calls": 300, "placeholder_oracle_evaluations": 1000, "op:rename": 50, "lookups": 5000,
+     min_counts={"quick": {"invariant_evaluations": 1000, "failing_calls": 300, "probe_calls": 300, "carried_identifiers_looked_up": 2500, "conversions_then_lookups": 100, "placeholder_oracle_evaluations": 1000, "op:rename": 50, "lookups": 5000,
                            "freed_lookups": 100, "unused_names_asked": 1000, "unused_names_asked_with_dangling_integer": 100}},
      set_samples=["clash_shapes"])
 
@@ -70,9 +70,9 @@ meta("C04",
      set_samples=["dt_verdicts", "doc_reasons"])
 
 meta("C07",
-     rule="G4 hostile text (empty/blank lines, every record letter with 0..10 fields from a pool of boundary atoms, printable/non-printable/non-ASCII garbage, very long fields, deep JSON) and single-point mutants of generated valid lines/documents, x vlevel 0-3 x version {None,gfa1,gfa2} x dialect, through Line(), Gfa(str|list), from_file, add_line; then follow-up public calls (line/segment/try_get_*/rm/validate/str, get/set/validate_field/field_to_s/delete/set_datatype) with hostile names and values; bin/gfapy-validate on generated files; every call runs under a logical step budget (5e6 + 5000*bytes function entries + loop back-edges inside gfapy/); non-trivial = case that reached a raise site not seen before in its shard Plus API-call histories (additions, removals, renames, tag and field edits incl. fragment external, probes) run through the client classifier; every field name of every record type is offered to set(); line instances are removed. Systematic stratum first: every field of every record type (64 slots) replaced by each of 36 atoms, levels 0/1/3, then a deterministic sweep (names, writers, validations, every field read, group resolution, removal of every line).",
+     rule="G4 hostile text (empty/blank lines, every record letter with 0..10 fields from a pool of boundary atoms, printable/non-printable/non-ASCII garbage, very long fields, deep JSON) and single-point mutants of generated valid lines/documents, x vlevel 0-3 x version {None,gfa1,gfa2} x dialect, through Line(), Gfa(str|list), from_file, add_line; then follow-up public calls (line/segment/try_get_*/rm/validate/str, get/set/validate_field/field_to_s/delete/set_datatype) with hostile names and values; bin/gfapy-validate on generated files; every call runs under a logical step budget (5e6 + 5000*bytes function entries + loop back-edges inside gfapy/); non-trivial = case that reached a raise site not seen before in its shard Plus API-call histories (additions, removals, renames, tag and field edits incl. fragment external, probes) run through the client classifier; every field name of every record type is offered to set(); line instances are removed. Systematic stratum first: every field of every record type (64 slots) replaced by each of 36 atoms, levels 0/1/3, then a deterministic sweep (names, writers, validations, every field read, group resolution, removal of every line). One file in five of the file entry point carries bytes which are not UTF-8 text; line objects of valid documents with one field re-assigned (the field of another line, a shorter or longer list) are added to the Gfa of the other lines; the public parsers of field values (LastPos, Alignment, ByteArray, NumericArray.from_string, posvalue, SegmentEnd, OrientedLine, invert) get the hostile atoms; ID tags of every datatype among the systematic atoms.",
      budget={"quick": 35, "thorough": 500},
-     min_counts={"quick": {"systematic_documents": 2500, "systematic_slots": 60, "files_with_undecodable_bytes": 100, "edited_lines_added": 300, "deep_nesting_documents": 3, "histories": 200, "public_calls": 30000, "gfapy_errors": 5000, "cli_runs": 20}},
+     min_counts={"quick": {"systematic_documents": 2500, "systematic_slots": 60, "files_with_undecodable_bytes": 100, "edited_lines_added": 300, "value_parser_calls": 30000, "deep_nesting_documents": 3, "histories": 200, "public_calls": 30000, "gfapy_errors": 5000, "cli_runs": 20}},
      assumptions=["missing or unreadable files are environment faults outside the claim (files whose bytes are not UTF-8 text are inside it since the eighth round)",
                   "termination is restated as bounded progress: no call may exceed the deterministic step budget; a wall-clock watchdog firing is inconclusive"])
 
@@ -94,9 +94,9 @@ meta("C10",
      set_samples=["queries_exercised"])
 
 meta("C12",
-     rule="(1) exhaustively: 4 orientation pairs x {A->B, A->A, B->A} x all 1-operation and all ordered 2-operation CIGARs over M,I,D,P,=,X,H plus '*': complement text vs the model, involution, length exchange, symmetric and repeatable equivalence tests; (2) random links with CIGARs of <=6 operations: adding the complement of a stored link (either form stored) adds nothing and raises nothing, a link differing otherwise is a separate edge; paths over the link in both traversal directions x 6 arrival orders of P/L/S, the recorded direction flag is checked by interpreting it; non-trivial = overlap different from its own complement",
+     rule="(1) exhaustively: 4 orientation pairs x {A->B, A->A, B->A} x all 1-operation and all ordered 2-operation CIGARs over M,I,D,P,=,X,H plus '*': complement text vs the model, involution, length exchange, symmetric and repeatable equivalence tests; (2) random links with CIGARs of <=6 operations: adding the complement of a stored link (either form stored) adds nothing and raises nothing, a link differing otherwise is a separate edge; paths over the link in both traversal directions x 6 arrival orders of P/L/S, the recorded direction flag is checked by interpreting it; non-trivial = overlap different from its own complement Two paths with different overlaps in opposite directions before the '*' link in either form.",
      budget={"quick": 20, "thorough": 300},
-     min_counts={"quick": {"complements": 3000, "complements_after_edit": 8000, "equivalence_tests": 20000, "complement_additions": 300, "path_resolutions": 600}},
+     min_counts={"quick": {"complements": 3000, "complements_after_edit": 8000, "placeholder_links_of_two_paths": 6000, "equivalence_tests": 20000, "complement_additions": 300, "path_resolutions": 600}},
      exhaustive="stratum (1): orientation pairs x segment pairs x all 1- and 2-operation CIGARs")
 
 meta("C19",
@@ -129,15 +129,15 @@ meta("C18",
      min_counts={"quick": {"seq_valid_after_refused": 60, "header_inplace_edits": 30, "header_add_assignments": 300, "header_add_valid_after_refused": 30, "assignments_on_lines_created_by_a_gfa": 300, "value_object_assignments": 30, "level_builds": 4000, "monotonicity_builds": 4000, "assignments": 4000, "invalid_validated": 1200, "assign_cells": 250}})
 
 meta("C14",
-     rule="GFA1 (70%) and GFA2 graphs of 2-8 segments with M/=-only or '*' overlaps: backbone chains of 2-5 segments in every mix of orientations, rings, plus branches, self-links, hairpins on chain ends and inside, chains sharing junctions, with and without sequences; linear_paths() is compared with the independent chain finder (modulo reversal / ring rotation); after merge_linear_paths(): spelled sequence (orientation taken from the path gfapy reported), length, exact multiset of outward dovetails re-attached to the right ends, untouched segments, component partition, closed/symmetric object graph, idempotence; non-trivial = a chain of >=3 segments with mixed exit ends 30% of the merges use enable_tracking=True (the '^' marks in merged names are stripped before comparison). Graphs built at validation levels 0-3.",
+     rule="GFA1 (70%) and GFA2 graphs of 2-8 segments with M/=-only or '*' overlaps: backbone chains of 2-5 segments in every mix of orientations, rings, plus branches, self-links, hairpins on chain ends and inside, chains sharing junctions, with and without sequences; linear_paths() is compared with the independent chain finder (modulo reversal / ring rotation); after merge_linear_paths(): spelled sequence (orientation taken from the path gfapy reported), length, exact multiset of outward dovetails re-attached to the right ends, untouched segments, component partition, closed/symmetric object graph, idempotence; non-trivial = a chain of >=3 segments with mixed exit ends 30% of the merges use enable_tracking=True (the '^' marks in merged names are stripped before comparison). Graphs built at validation levels 0-3. gfapy's own component answers after every merge; one path turned round (in place and through reversed()) and merged on its own.",
      budget={"quick": 20, "thorough": 300},
-     min_counts={"quick": {"merges_at_level_3": 1500, "component_answers_after_merge": 5000, "linear_path_calls": 5000, "merges_at_level_0": 1500, "merges_with_enable_tracking": 1000, "linear_paths_calls": 8000, "merges": 5000, "invariant_evaluations": 3000}},
+     min_counts={"quick": {"merges_at_level_3": 1500, "component_answers_after_merge": 5000, "single_paths_reversed_then_merged": 250, "linear_path_calls": 5000, "merges_at_level_0": 1500, "merges_with_enable_tracking": 1000, "linear_paths_calls": 8000, "merges": 5000, "invariant_evaluations": 3000}},
      set_samples=["features", "chain_lengths"])
 
 meta("C15",
-     rule="GFA1 (70%) / GFA2 graphs of 2-5 segments (names incl. ones ending in *n) with count tags, several dovetails per end, parallel links, containments, self-links, named edges; multiply(segment by name or instance, k in -1..4, distribute in {None, off, auto, equal, L, R}, given or automatic copy names); the text before/after is compared by an independent model: number/freshness/requested names of copies, identical fields and tags, count tags of segment and edges divided (floor..ceil), every dovetail/containment copied to the same neighbours with the same orientation/overlap, no invented edge, distribution semantics (every former neighbour stays linked, at most one end distributed), factor 1 / 0 / negative, rest of the graph textually unchanged, object graph closed and symmetric; non-trivial = segment with >=2 dovetails on one end or a containment and k>=2",
+     rule="GFA1 (70%) / GFA2 graphs of 2-5 segments (names incl. ones ending in *n) with count tags, several dovetails per end, parallel links, containments, self-links, named edges; multiply(segment by name or instance, k in -1..4, distribute in {None, off, auto, equal, L, R}, given or automatic copy names); the text before/after is compared by an independent model: number/freshness/requested names of copies, identical fields and tags, count tags of segment and edges divided (floor..ceil), every dovetail/containment copied to the same neighbours with the same orientation/overlap, no invented edge, distribution semantics (every former neighbour stays linked, at most one end distributed), factor 1 / 0 / negative, rest of the graph textually unchanged, object graph closed and symmetric; non-trivial = segment with >=2 dovetails on one end or a containment and k>=2 Automatic copy names taken by the ID of a containment, by a gap, or only referred to in a graph under construction.",
      budget={"quick": 20, "thorough": 300},
-     min_counts={"quick": {"multiplications": 6000, "prelude_operations": 2000, "apply_copy_numbers_calls": 300, "invariant_evaluations": 4000, "configs": 30}},
+     min_counts={"quick": {"multiplications": 6000, "prelude_operations": 2000, "graphs_under_construction": 400, "apply_copy_numbers_calls": 300, "invariant_evaluations": 4000, "configs": 30}},
      set_samples=["configs"])
 
 meta("C17",
@@ -149,5 +149,5 @@ meta("C17",
 meta("C06",
      rule="GFA1 graphs whose segments have a length and whose overlaps are specified, asymmetric CIGARs (I/D/P), every orientation pair, self-links, containments at offset 0 / inner / flush right, linear, circular and single-segment paths traversing links in either direction, named and unnamed edges, tags; GFA2 graphs from G1 with CIGAR or '*' alignments; whole-graph conversion in both directions (string and Gfa), line-level refusals, there-and-back; edges are compared in the E-line semantic normal form (the four spellings under sid swap => I<->D and orientation flip => reversed operations) computed by an independent model from CIGAR reference/query lengths and segment lengths; converted text must be VALID for the target grammar and accepted by Gfa(vlevel=3).validate(); bin/gfapy-convert sampled; non-trivial = graph with an alignment that is not its own swap/reverse Several P lines per document, also the same walk the other way round, lines in any arrival order. 8%: links/containments whose overlaps use GFA1-only operations (= X N S H): refusal, omission or valid GFA2, never invalid text (Gfa, line level, CLI); circular paths of one segment over a self-link. '$' rule on every position of every converted E/F line; links covering a whole segment; GFA2 graphs written from an independent link model with ordered groups in six presentations (segments, alternating, edges only, edge first/last/both) converted 2->1 and compared segment by segment and overlap by overlap.",
      budget={"quick": 25, "thorough": 360},
-     min_counts={"quick": {"gfa1_only_alignment_conversions": 2000, "whole_segment_overlap_conversions": 120, "positions_checked_for_$": 30000, "paths_compared_2to1": 500, "conversions_after_edge_replacement": 150, "groups_over_containments_converted": 40, "no_counterpart_conversions": 150, "conversions_after_edit": 100, "conversions_1to2": 3000, "conversions_2to1": 1200, "edges_compared": 8000, "round_trips": 4000, "paths_compared": 500, "line_level_refusals": 500}},
+     min_counts={"quick": {"gfa1_only_alignment_conversions": 2000, "whole_segment_overlap_conversions": 120, "positions_checked_for_$": 30000, "paths_compared_2to1": 500, "conversions_after_edge_replacement": 150, "groups_over_containments_converted": 40, "no_counterpart_object_conversions": 80, "no_counterpart_conversions": 150, "conversions_after_edit": 100, "conversions_1to2": 3000, "conversions_2to1": 1200, "edges_compared": 8000, "round_trips": 4000, "paths_compared": 500, "line_level_refusals": 500}},
      assumptions=["containments whose container orientation is '-' (GFA1 does not say on which strand pos counts), dovetails spanning a whole segment, trace alignments and internal edges are outside the comparison (DESIGN 3.1)"])
